@@ -1824,7 +1824,8 @@ class UTPM(Ring, RawAlgorithmsMixIn):
 
 
         shp = numpy.shape(x)
-        data = numpy.zeros(numpy.hstack( [2, 1, shp]), dtype=dtype)
+        # (not numpy.hstack([2, 1, shp]): for a scalar point shp is empty and the result a float array)
+        data = numpy.zeros((2, 1) + shp, dtype=dtype)
         data[0,0] = x
         data[1,0] = v
         return cls(data)
